@@ -86,7 +86,7 @@ Inductive event :=
 | EvEdge (two_way : bool) (a b : Z)                        (* equivdb.add_two_way_edge / add_one_way_edge *)
 | EvStore (eqv : bool) (start : Z) (ends : list Z) (sid parent : Z)
       (* eqv_rule_to_strategy / rule_to_strategy [(start, ends)] = rule.strategy *)
-| EvPop (start : Z) (ends : list Z)                        (* rule_to_strategy.pop((start, ends), None) *)
+| EvPop (start : Z) (ends : list Z)                        (* the key (start, ends) is removed from rule_to_strategy *)
 | EvKey (parent : Z) (children shifts : list Z) (bucket : Z).
       (* table_method.add_rule_key; bucket 0 REVERSE, 1 NORMAL, 2 EQUIV, 3 VERIFICATION *)
 
@@ -332,7 +332,12 @@ Definition base_add (s : st) (start : Z) (ends : list Z) (r : rule) : st :=
   match ends' with
   | [e] =>
       if r_two_way r then
-        let s2 := emits (ver ++ [EvEdge true start e; st_ev true; EvPop start ends'; EvPop e [start]]) s1 in
+        (* the superseded one-way keys are deleted when present (`if key in d: del d[key]`);
+           EvPop = a key really left the store *)
+        let d0 := rstore s1 in
+        let p1 := if existsb (keyeq (start, ends')) d0 then [EvPop start ends'] else [] in
+        let p2 := if existsb (keyeq (e, [start])) (store_pop (start, ends') d0) then [EvPop e [start]] else [] in
+        let s2 := emits (ver ++ [EvEdge true start e; st_ev true] ++ p1 ++ p2) s1 in
         with_stores s2 (store_pop (e, [start]) (store_pop (start, ends') (rstore s2)))
                        (store_set (start, ends') (estore s2))
       else
